@@ -253,7 +253,10 @@ def one_call(rec, fname, args, aux, snaps, dtype, layout, dask, seq_pos=0, extra
     if dask and outs and isinstance(outs[0], da.Array):
         if ident in ('full', 'attrs+unit'):
             rec.ok('backend.dask')
-        outs = [np.asarray(o.compute()) if isinstance(o, da.Array) else o for o in outs]
+        try:
+            outs = [np.asarray(o.compute()) if isinstance(o, da.Array) else o for o in outs]
+        except Exception as e:
+            rec.rej('raises_at_compute.%s' % fname); return None
         # after compute the inputs are still unchanged
         for i, (a, s) in enumerate(zip(args[:nargs], snaps[:nargs])):
             d = s.diff(a)
